@@ -219,7 +219,7 @@ impl<'a> SubDeviceRef<'a> {
 }
 
 impl MainDevice {
-/*@fn file=src/maindevice.rs impl="impl<'sto> MainDevice<'sto>" name=single_pdu subst="&'sto self=>&self@@ReceivedPdu<'sto>=>ReceivedPdu@@frame.await?=>frame.wait().await?" props=C01,C11
+/*@fn file=src/maindevice.rs impl="impl<'sto> MainDevice<'sto>" name=single_pdu subst="&'sto self=>&self@@ReceivedPdu<'sto>=>ReceivedPdu@@frame.await?=>frame.wait_l(&__wl).await?@@.mark_sendable(=>.mark_sendable_l(&mut __wl,@@(opt).wake_sender()=>.wake_sender_l(&mut __wl)" props=C01,C11
     requires
         self.pdu_loop.area <= 0x7ff, self.cfg_ok(), data.packed().len() <= 0xffff,
     ensures
@@ -228,7 +228,9 @@ impl MainDevice {
         r is Ok ==> exists|g: RxPdu| #[trigger] answered(command, g)
             && g.data.len() == (if len_override is Some { max_nat(len_override->Some_0 as nat, data.packed().len()) } else { data.packed().len() })
             && (r->Ok_0).data() == g.data && (r->Ok_0).wkc_v() == g.wkc,
-@*/
+
+@entry
+    let mut __wl: Ghost<Seq<PubEv>> = Ghost(Seq::empty());@*/
 }
 
 impl Command {
@@ -237,13 +239,15 @@ impl Command {
 @*/
 }
 impl PduLoop {
-/*@fn file=src/pdu_loop/mod.rs impl="impl<'sto> PduLoop<'sto>" name=pdu_broadcast_zeros subst="self.storage.alloc_frame()=>self.alloc_frame()@@crate::timer_factory::LabeledTimeout=>LabeledTimeout@@frame.await?=>frame.wait().await?" props=C04,C09
+/*@fn file=src/pdu_loop/mod.rs impl="impl<'sto> PduLoop<'sto>" name=pdu_broadcast_zeros subst="self.storage.alloc_frame()=>self.alloc_frame()@@crate::timer_factory::LabeledTimeout=>LabeledTimeout@@frame.await?=>frame.wait_l(&__wl).await?@@.mark_sendable(=>.mark_sendable_l(&mut __wl,@@(opt).wake_sender()=>.wake_sender_l(&mut __wl)" props=C04,C09
     requires self.area <= 0x7ff, timeout == self.cfg_timeout@, retries == self.cfg_retries@     // (blank_memory passes timeouts.pdu() and the configured retry count)
     ensures
         // Ok => ONE broadcast write (address 0, this register) whose data area is `payload_length` bytes and carries no caller data
         // (push_pdu zero-fills it: unit created_frame / Kani frame_build) went out and was answered
         r is Ok ==> exists|g: RxPdu| #[trigger] answered(Command::Write(Writes::Bwr { address: 0, register }), g) && g.data.len() == payload_length,
-@*/
+
+@entry
+    let mut __wl: Ghost<Seq<PubEv>> = Ghost(Seq::empty());@*/
 }
 
 impl MainDevice {
@@ -279,7 +283,7 @@ impl<const MAX_PDI: usize> Grp<MAX_PDI> {
         ensures r == self.subdevices@.len()
     { unimplemented!() }
 
-/*@fn file=src/subdevice_group/mod.rs impl="impl<const MAX_SUBDEVICES: usize, const MAX_PDI: usize, R: RawRwLock, S, DC> SubDeviceGroup<MAX_SUBDEVICES, MAX_PDI, R, S, DC>" name=tx_rx subst="<'sto>=><const MAX_SUBDEVICES: usize>@@&'sto MainDevice<'sto>=>&MainDevice@@self.inner().pdi_start.start_address=>self.start_address@@self.inner().subdevices.iter()=>self.sd_iter()@@heapless::Vec::<_, MAX_SUBDEVICES>::new()=>StateVec::<MAX_SUBDEVICES>::new()@@frame.await?=>frame.wait().await?" props=C07 attr="#[verifier::loop_isolation(false)] #[verifier::allow_complex_invariants]"
+/*@fn file=src/subdevice_group/mod.rs impl="impl<const MAX_SUBDEVICES: usize, const MAX_PDI: usize, R: RawRwLock, S, DC> SubDeviceGroup<MAX_SUBDEVICES, MAX_PDI, R, S, DC>" name=tx_rx subst="<'sto>=><const MAX_SUBDEVICES: usize>@@&'sto MainDevice<'sto>=>&MainDevice@@self.inner().pdi_start.start_address=>self.start_address@@self.inner().subdevices.iter()=>self.sd_iter()@@heapless::Vec::<_, MAX_SUBDEVICES>::new()=>StateVec::<MAX_SUBDEVICES>::new()@@frame.await?=>frame.wait_l(&__wl).await?@@.mark_sendable(=>.mark_sendable_l(&mut __wl,@@(opt).wake_sender()=>.wake_sender_l(&mut __wl)" props=C07 attr="#[verifier::loop_isolation(false)] #[verifier::allow_complex_invariants]"
     requires
         self.wf(),
         14 <= maindevice.pdu_loop.area <= 0x7ff, maindevice.cfg_ok(),       // frame sizes from "can carry one state check" up (C07 quantifier)
@@ -289,6 +293,8 @@ impl<const MAX_PDI: usize> Grp<MAX_PDI> {
     ensures
         // one reported state per SubDevice of the group
         r is Ok ==> (r->Ok_0).subdevice_states.v@.len() == self.subdevices@.len(),
+@entry
+    let mut __wl: Ghost<Seq<PubEv>> = Ghost(Seq::empty());
 @after "let mut pdi_lock = self.pdi.write();"
     let ghost img0 = pdi_lock.image@;
     let ghost mut rx: Seq<u8> = Seq::<u8>::empty();     // what the network returned for the image addresses, in order
@@ -355,7 +361,7 @@ impl<const MAX_PDI: usize> Grp<MAX_PDI> {
     }
 @*/
 
-/*@fn file=src/subdevice_group/mod.rs impl="impl<const MAX_SUBDEVICES: usize, const MAX_PDI: usize, R: RawRwLock, S, DC> SubDeviceGroup<MAX_SUBDEVICES, MAX_PDI, R, S, DC>" name=tx_rx_sync_system_time subst="<'sto>=><const MAX_SUBDEVICES: usize>@@&'sto MainDevice<'sto>=>&MainDevice@@self.inner().pdi_start.start_address=>self.start_address@@self.inner().subdevices.iter()=>self.sd_iter()@@heapless::Vec::<_, MAX_SUBDEVICES>::new()=>StateVec::<MAX_SUBDEVICES>::new()@@frame.await?=>frame.wait().await?@@u64::unpack_from_slice(&rx).map_err(Error::from)=>u64_unpack_from_slice(&rx).map_err(|e: WireError| -> (me: Error) ensures me == Error::Wire(e) { Error::from(e) })" props=C07 attr="#[verifier::loop_isolation(false)] #[verifier::allow_complex_invariants]" __brk0="Result<TxRxResponse<MAX_SUBDEVICES, Option<u64>>, Error>"
+/*@fn file=src/subdevice_group/mod.rs impl="impl<const MAX_SUBDEVICES: usize, const MAX_PDI: usize, R: RawRwLock, S, DC> SubDeviceGroup<MAX_SUBDEVICES, MAX_PDI, R, S, DC>" name=tx_rx_sync_system_time subst="<'sto>=><const MAX_SUBDEVICES: usize>@@&'sto MainDevice<'sto>=>&MainDevice@@self.inner().pdi_start.start_address=>self.start_address@@self.inner().subdevices.iter()=>self.sd_iter()@@heapless::Vec::<_, MAX_SUBDEVICES>::new()=>StateVec::<MAX_SUBDEVICES>::new()@@frame.await?=>frame.wait_l(&__wl).await?@@u64::unpack_from_slice(&rx).map_err(Error::from)=>u64_unpack_from_slice(&rx).map_err(|e: WireError| -> (me: Error) ensures me == Error::Wire(e) { Error::from(e) })@@.mark_sendable(=>.mark_sendable_l(&mut __wl,@@(opt).wake_sender()=>.wake_sender_l(&mut __wl)" props=C07 attr="#[verifier::loop_isolation(false)] #[verifier::allow_complex_invariants]" __brk0="Result<TxRxResponse<MAX_SUBDEVICES, Option<u64>>, Error>"
     requires
         self.wf(),
         34 <= maindevice.pdu_loop.area <= 0x7ff, maindevice.cfg_ok(),
@@ -364,6 +370,8 @@ impl<const MAX_PDI: usize> Grp<MAX_PDI> {
         self.subdevices@.len() <= MAX_SUBDEVICES,
     ensures
         r is Ok ==> (r->Ok_0).subdevice_states.v@.len() == self.subdevices@.len(),
+@entry
+    let mut __wl: Ghost<Seq<PubEv>> = Ghost(Seq::empty());
 @after "let mut pdi_lock = self.pdi.write();"
     let ghost img0 = pdi_lock.image@;
     let ghost mut rx: Seq<u8> = Seq::<u8>::empty();
@@ -433,7 +441,7 @@ impl<const MAX_PDI: usize> Grp<MAX_PDI> {
     ensures cr.working_counter == response.working_counter, cr.subdevice_states == response.subdevice_states, cr.extra is None
 @*/
 
-/*@fn file=src/subdevice_group/mod.rs impl="impl<const MAX_SUBDEVICES: usize, const MAX_PDI: usize, R: RawRwLock, S> SubDeviceGroup<MAX_SUBDEVICES, MAX_PDI, R, S, HasDc>" name=tx_rx_dc subst="<'sto>=><const MAX_SUBDEVICES: usize>@@&'sto MainDevice<'sto>=>&MainDevice@@self.inner().pdi_start.start_address=>self.start_address@@self.inner().subdevices.iter()=>self.sd_iter()@@heapless::Vec::<_, MAX_SUBDEVICES>::new()=>StateVec::<MAX_SUBDEVICES>::new()@@frame.await?=>frame.wait().await?@@u64::unpack_from_slice(&rx).map_err(Error::from)=>u64_unpack_from_slice(&rx).map_err(|e: WireError| -> (me: Error) ensures me == Error::Wire(e) { Error::from(e) })" props=C07,C18 attr="#[verifier::loop_isolation(false)] #[verifier::allow_complex_invariants]"
+/*@fn file=src/subdevice_group/mod.rs impl="impl<const MAX_SUBDEVICES: usize, const MAX_PDI: usize, R: RawRwLock, S> SubDeviceGroup<MAX_SUBDEVICES, MAX_PDI, R, S, HasDc>" name=tx_rx_dc subst="<'sto>=><const MAX_SUBDEVICES: usize>@@&'sto MainDevice<'sto>=>&MainDevice@@self.inner().pdi_start.start_address=>self.start_address@@self.inner().subdevices.iter()=>self.sd_iter()@@heapless::Vec::<_, MAX_SUBDEVICES>::new()=>StateVec::<MAX_SUBDEVICES>::new()@@frame.await?=>frame.wait_l(&__wl).await?@@u64::unpack_from_slice(&rx).map_err(Error::from)=>u64_unpack_from_slice(&rx).map_err(|e: WireError| -> (me: Error) ensures me == Error::Wire(e) { Error::from(e) })@@.mark_sendable(=>.mark_sendable_l(&mut __wl,@@(opt).wake_sender()=>.wake_sender_l(&mut __wl)" props=C07,C18 attr="#[verifier::loop_isolation(false)] #[verifier::allow_complex_invariants]"
     requires
         self.wf(),
         34 <= maindevice.pdu_loop.area <= 0x7ff, maindevice.cfg_ok(),      // the clock datagram (20 bytes) plus one state check (14 bytes) fit
@@ -448,6 +456,8 @@ impl<const MAX_PDI: usize> Grp<MAX_PDI> {
         r is Ok ==> (r->Ok_0).extra.cycle_start_offset.nanos as int == (r->Ok_0).extra.dc_system_time as int % self.dc_conf.sync0_period as int
             && (r->Ok_0).extra.next_cycle_wait.nanos as int
                 == (self.dc_conf.sync0_period - (r->Ok_0).extra.cycle_start_offset.nanos) + self.dc_conf.sync0_shift,
+@entry
+    let mut __wl: Ghost<Seq<PubEv>> = Ghost(Seq::empty());
 @after "let mut pdi_lock = self.pdi.write();"
     let ghost img0 = pdi_lock.image@;
     let ghost mut rx: Seq<u8> = Seq::<u8>::empty();
@@ -518,7 +528,7 @@ impl<const MAX_PDI: usize> Grp<MAX_PDI> {
     }
 @*/
 
-/*@fn file=src/subdevice_group/mod.rs impl="impl<const MAX_SUBDEVICES: usize, const MAX_PDI: usize, R: RawRwLock, S, DC> SubDeviceGroup<MAX_SUBDEVICES, MAX_PDI, R, S, DC>" name=is_state subst="MainDevice<'_>=>MainDevice@@self.inner().subdevices.iter()=>self.sd_iter()@@frame.await?=>frame.wait().await?" props=C10 attr="#[verifier::loop_isolation(false)] #[verifier::allow_complex_invariants]"
+/*@fn file=src/subdevice_group/mod.rs impl="impl<const MAX_SUBDEVICES: usize, const MAX_PDI: usize, R: RawRwLock, S, DC> SubDeviceGroup<MAX_SUBDEVICES, MAX_PDI, R, S, DC>" name=is_state subst="MainDevice<'_>=>MainDevice@@self.inner().subdevices.iter()=>self.sd_iter()@@frame.await?=>frame.wait_l(&__wl).await?@@.mark_sendable(=>.mark_sendable_l(&mut __wl,@@(opt).wake_sender()=>.wake_sender_l(&mut __wl)" props=C10 attr="#[verifier::loop_isolation(false)] #[verifier::allow_complex_invariants]"
     requires
         maindevice.pdu_loop.area <= 0x7ff, maindevice.cfg_ok(),
         maindevice.pdu_loop.area >= 14,                 // a frame can carry at least one state check (C07/C10 quantifier)
@@ -527,6 +537,8 @@ impl<const MAX_PDI: usize> Grp<MAX_PDI> {
         // Ok(true) only if EVERY SubDevice of the group answered an AL-status read (FPRD 0x0130 to its own configured
         // address) and the answer decodes to the requested state
         r == Ok::<bool, Error>(true) ==> forall|i: int| 0 <= i < self.subdevices@.len() ==> ok_dev(#[trigger] self.subdevices@[i], desired_state),
+@entry
+    let mut __wl: Ghost<Seq<PubEv>> = Ghost(Seq::empty());
 @loop 0
     invariant
         total_checks <= self.subdevices@.len(),
